@@ -183,3 +183,8 @@ def run_round(res, case, attempt=0):
     if handler_errors:
         res.violation('server-handler-error', 'C20.server', '%s: %s: %s' % (
             where, type(handler_errors[0]).__name__, handler_errors[0]), case)
+    # the entity's configuration belongs to the application: serving retrieves must leave it alone
+    if server.timeout != 8:
+        res.violation('entity-configuration-changed-by-serving', 'C20.isolation',
+                      '%s: the serving entity was configured with timeout 8, after the round it is %r (every '
+                      'association of the entity uses it)' % (where, server.timeout), case)
